@@ -398,6 +398,36 @@ pub(crate) fn ct_array32_maybe_set<const N: usize>(a: &mut [i32; N], b: &[i32; N
     }
 }
 
+/// verification hook: public wrapper of the conditional swap of two u64 limb arrays
+#[cfg(feature = "verif-hooks")]
+pub fn verif_array64_maybe_swap_with<const N: usize>(a: &mut [u64; N], b: &mut [u64; N], swap: Choice) {
+    ct_array64_maybe_swap_with(a, b, swap)
+}
+
+/// verification hook: public wrapper of the conditional swap of two i32 limb arrays
+#[cfg(feature = "verif-hooks")]
+pub fn verif_array32_maybe_swap_with<const N: usize>(a: &mut [i32; N], b: &mut [i32; N], swap: Choice) {
+    ct_array32_maybe_swap_with(a, b, swap)
+}
+
+/// verification hook: public wrapper of the conditional assignment of a u64 limb array
+#[cfg(feature = "verif-hooks")]
+pub fn verif_array64_maybe_set<const N: usize>(a: &mut [u64; N], b: &[u64; N], swap: Choice) {
+    ct_array64_maybe_set(a, b, swap)
+}
+
+/// verification hook: public wrapper of the conditional assignment of an i32 limb array
+#[cfg(feature = "verif-hooks")]
+pub fn verif_array32_maybe_set<const N: usize>(a: &mut [i32; N], b: &[i32; N], swap: Choice) {
+    ct_array32_maybe_set(a, b, swap)
+}
+
+/// verification hook: build a `Choice` from a boolean
+#[cfg(feature = "verif-hooks")]
+pub fn verif_choice(b: bool) -> Choice {
+    Choice(b as u64)
+}
+
 #[cfg(test)]
 mod tests {
     use super::*;
